@@ -24,6 +24,20 @@ def t3(rep, tier, seed):
                            "domains of C01/C03/C05 reduced (n<=4/5); list, ndarray, dict with str names, dict with int names, names+valueof; names in pseudo-random order unrelated to values", chunk=32))
 
 
+def t3_positional_options(rep, tier, seed):
+    """options that are indexed by item POSITION (ilp's copies list) on inputs with repeated values: looking the option up by the item itself
+    instead of by its position works for names and fails for plain numbers"""
+    rng = random.Random(seed + 7)
+    dom = []
+    for _ in range(6 if tier == "quick" else 40):
+        n = rng.randint(3, 5)
+        vals = [rng.randint(1, 9) for _ in range(n)]
+        vals[rng.randrange(1, n)] = vals[0]                  # at least one repeated value
+        dom.append({"kind": "partition", "algo": "ilp", "values": vals, "param": 2, "kw": {"copies": [rng.randint(1, 3) for _ in range(n)]}})
+    rep.add(H.run_case("C07/T3/ilp/presentation-independent[copies-list,repeated-values]", "prtpy::ilp", T.c07_case, dom,
+                       "3..5 items with a repeated value, a copies list of 1..3 per position, 2 bins; five presentations", chunk=2))
+
+
 def t3_enumerator(rep, tier):
     """ckk / snp / rnp are presentation-independent only if the bin-combination enumerator yields every distinct pairing whatever the contents
     look like (lists of equal numbers vs. distinct names): the C13 contract of all_combinations on 5-bin arrays with many coinciding bins"""
@@ -44,4 +58,5 @@ def run(rep, tier, seed):
     D.run_static(rep, "C07", ("purity", "opacity"))      # every per-call contract presupposes that results are functions of the arguments
     t3(rep, tier, seed)
     t3_enumerator(rep, tier)
+    t3_positional_options(rep, tier, seed)
     D.link_falsifier(rep)
